@@ -317,6 +317,20 @@ def run(chk: Check) -> None:
         ok = ".source.deep_eq(" in txt and ".target.deep_eq(" in txt and ".label" in txt
         chk.ob("R18.1", "CFG.deep_eq:edges-compared", ok, f.loc(),
                "CFG.deep_eq must compare edge labels by value and both endpoints by deep_eq", 2)
+        # a CFG is its set of edges: the vertices of the backing multigraph are not content (an
+        # endpoint stays a vertex after its last edge is discarded, and is not saved)
+        bad = []
+        for n in ast.walk(f.node):
+            if isinstance(n, ast.Attribute) and n.attr == "_nxg":
+                par = getattr(n, "_parent", None)
+                if isinstance(par, ast.Attribute) and par.value is n:
+                    if par.attr not in ("number_of_edges", "edges", "size"):
+                        bad.append(par)
+                else:
+                    bad.append(n)        # len(g), x in g, iteration, g == h: all about vertices
+        chk.ob("R18.3", "CFG.deep_eq:graph-read-through-edges-only", not bad, f.loc(bad[0]) if bad else f.loc(),
+               "CFG.deep_eq reads the backing multigraph other than through its edges (%s): vertices "
+               "without edges are not part of the CFG's content" % (unparse(bad[0]) if bad else "-"), 2)
 
 
 def _sorted_call(e: ast.AST, al: Dict[str, ast.AST]) -> Optional[ast.Call]:
